@@ -357,6 +357,24 @@ func runC10(c *rt.Ctx) {
 	c.Require("accepted-variant-1", 1000)
 	c.Require("accepted-variant-2", 1000)
 	c.Require("rejected", 100000)
+	{ // the numeral as other layers spell it (quoted, bracketed, escaped, padded, doubled, other scripts): not the numeral
+		oldL := roman.MaxInputLength
+		for _, limit := range []int{oldL, 0} {
+			roman.MaxInputLength = limit
+			c.Parallel(fmt.Sprintf("decorated-%d", limit), 0, func(w *rt.W) {
+				bases := []string{"MCMXCIV", "mmxxiv", "IV", "i", "MMMM", "xlii", "DCCCLXXXVIII", ""}
+				for bi := w.Shard; bi < len(bases); bi += w.NShards {
+					for _, d := range decorate(bases[bi]) {
+						c10Case(w, d, 0)
+						c10Case(w, d, roman.RuleDisableEmptyAsZero)
+						w.ClassN("decorated-valid-text", 1)
+					}
+				}
+			})
+		}
+		roman.MaxInputLength = oldL
+		c.Require("decorated-valid-text", 1500)
+	}
 	c.Require("single-byte-substitution", 100000)
 	c.Require("around-limit", 100)
 }
